@@ -23,6 +23,9 @@ func registry() *kernel.Registry {
 		Assumptions: map[string][]string{},
 		MinProbes:   map[string][]string{},
 		UnstableSUT: map[string]int{"C14": 8},
+		Weights: map[string]map[string]int{
+			"C14": {"xr": 8}, "C01": {"xr": 5}, "C13": {"xr": 3}, "C19": {"xr": 2},
+		},
 	}
 	reg.Components["xr"] = [2][]string{
 		{"teleport application (app.NewTeleport: BaseApp, ante handler, EVM, xibc, aggregate, gov, staking, bank) built from /repo's working tree, 2-3 instances per run",
